@@ -136,3 +136,28 @@ Example C15_discipline_witness :
   disciplineb (format_impl input) = true /\
   read_broken (format_impl input) = [true; false].
 Proof. vm_compute. repeat split. Qed.
+
+(** The reader is not vacuous: it rejects an indentation of two spaces, a
+    closer left at the inner depth, a brace without its separating space, and
+    an unclosed scope; it accepts the formatter's layout of the same texts. *)
+Example C15_reader_rejects :
+  map (fun s => disciplineb (utf8_decode s))
+    [" {
+    a
+}"; " {
+  a
+}"; " {
+    a
+    }"; "(
+    a,
+    {
+        x
+    }
+)"; "(
+    a,
+     {
+        x
+    }
+)"; "(a"]%string
+  = [true; false; false; false; true; false].
+Proof. vm_compute. reflexivity. Qed.
